@@ -3,6 +3,7 @@ import json
 import numpy as np
 
 from harness.core import Machinery
+from checks.flowgrid import quiet as quiet_stdout
 
 LEVEL = "model_checking"
 
@@ -57,6 +58,9 @@ def spec_to_code(ctx, gutils, Grid, cfg):
                 if (h + variant) % 2:
                     buf = np.ones(len(pts), dtype=np.int32) * 7
                     got = gutils.points_inside_polygon(pts, pa, inside=buf)
+                elif (h + variant) % 7 == 0:
+                    with quiet_stdout():
+                        got = gutils.points_inside_polygon(pts, pa, nprint=1)
                 else:
                     got = gutils.points_inside_polygon(pts, pa)
             except Exception as e:
